@@ -1123,8 +1123,8 @@ pub fn run_case(case: &CrashCase, wroot: &Path, c02: bool, stats: &mut Stats) ->
       if case.pin.is_none() {
         let spent = ctx.stats.get("evaluations") - evals_at_start;
         // over the cap: only the in-flight tail (the last 120 boundaries) is
-        // still swept, itself bounded by three times the cap
-        if spent > 3 * cap {
+        // still swept, itself bounded by twice the cap
+        if spent > 2 * cap {
           ctx.stats.inc("probe.sweep_cut_by_work_cap");
           break;
         }
